@@ -763,7 +763,9 @@ func (up4 *UP4) removeGTPTunnelPeer(far far) {
 	removeLog.Debugln("removing GTP Tunnel Peer ID")
 
 	if err := up4.p4client.ApplyTableEntries(p4.Update_DELETE, gtpTunnelPeerEntry); err != nil {
+		// the entry is still in the switch: its ID must not be handed out again
 		removeLog.Errorln("failed to remove GTP tunnel peer")
+		return
 	}
 
 	up4.unsafeReleaseAllocatedGTPTunnelPeer(tunnelParameters)
